@@ -165,7 +165,8 @@ let run_srv (line_parts : string list) : string =
       let sid_of o = match o with ODispatch (sid, _) -> int_of_n sid | _ -> 0 in
       let disp = List.filter_map fmt_out (List.stable_sort (fun a b -> compare (sid_of a) (sid_of b)) disp_items) in
       let g = if show_gauges then
-          [Printf.sprintf "g%d,%s,%d" (List.length (!st).sc_strms) (dec_of_zc (!st).sc_open) (List.length (!st).sc_ring)]
+          [Printf.sprintf "g%d,%s,%d,%s,%s" (List.length (!st).sc_strms) (dec_of_zc (!st).sc_open) (List.length (!st).sc_ring)
+             (dec_of_zc (!st).sc_currentWindow) (dec_of_zc (!st).sc_clientWindow)]
         else [] in
       groups := String.concat ";" (frames @ disp @ extra @ g) :: !groups in
     let nudge = { sf_kind = KWinUpd; sf_flags = N0; sf_sid = N0; sf_len = n_of_int 4; sf_payload = [];
